@@ -280,7 +280,23 @@ def check_numbers(ctx, prog):
     if rs:
         a = strip(rs[0]['a'][0])
         extra = const_val(a['y']) if a.get('k') == 'bin' and a.get('op') == '+' else None
-    ctx.check(extra is not None and extra >= 11, 'C05.numbers', f['pq'], 'new_number(int):reserve 11', fwhere(f), 'reserve %s' % extra, 'fewer than 11 bytes reserved for the text of an int (INT_MIN has 11 characters)')
+    # the text may also be formatted into a fixed local buffer first: it then needs 12 bytes (11 characters + NUL)
+    local_cap = None
+    for e in fn_exprs(f):
+        is_itoa = e.get('k') == 'call' and (e.get('pq') or e.get('fn') or '').split('::')[-1] in ('myitoa', 'myltoa') and len(e.get('a', [])) == 2
+        if (e.get('k') == 'call' and e.get('fn') in ('snprintf', 'sprintf') and e.get('a')) or is_itoa:
+            d = strip(q.expand(f, e['a'][1 if is_itoa else 0]))
+            while d.get('k') in ('cast', 'paren'):
+                d = strip(d['e'])
+            dt = T(f, d.get('dt') or d.get('t'))
+            if d.get('k') == 'var' and d.get('vk') == 'local' and dt.get('n'):
+                sz = const_val(e['a'][1]) if e.get('fn') == 'snprintf' else None
+                local_cap = dt['n'] if sz is None else min(dt['n'], sz) if sz <= dt['n'] else -1
+    if extra is None and local_cap is None:
+        ctx.undecided('C05.numbers', f['pq'], 'new_number(int):reserve 11', fwhere(f), 'neither a reserve of the output nor a fixed local buffer found for the text of an int')
+    else:
+        okr = (extra is not None and extra >= 11) or (local_cap is not None and local_cap >= 12)
+        ctx.check(okr, 'C05.numbers', f['pq'], 'new_number(int):reserve 11', fwhere(f), 'reserve %s' % (extra if extra is not None else '%d-byte local buffer' % local_cap), 'fewer than 11 bytes (+ NUL) reserved for the text of an int (INT_MIN has 11 characters)')
     # decoder: int conversion only for short digit strings
     p = fn1(prog, 'asl::XdlParser::parse')
     g = q.Guarded(p)
